@@ -40,6 +40,16 @@ strum = { version = "0.27.2", features = ["derive"] }
 strum_macros = "0.27.2"
 [features]
 r7 = []
+h_delim_scan = []
+h_escapes = []
+h_escapes_hex = []
+h_handle_num_post = []
+h_line_comment_skip = []
+h_block_comment_skip = []
+h_tokenize_total = []
+h_keyword_table = []
+h_span_byte_offsets = []
+h_span_ascii = []
 [lints.rust]
 unexpected_cfgs = { level = "allow" }
 [workspace]
@@ -94,6 +104,7 @@ T_ESC = ['\\', 'x', 'n', '"', "'", 'a', '7', '+', 'é', '😀', '\n', '*', '/']
 T_NUM = ['7', '_', '.', 'a', ' ', 'é', '-', '\\', '"', "'", '\n', '*', '/']
 T_SPAN = ['*', '7', 'a', ' ', '\n', 'é', '😀', '\\', '"', "'", '/']
 T_HEX = ['a', '7', 'F', '+', 'é', 'x', 'g']
+T_ASCII = ['7', '_', '.', 'a', '*', '=', '-', '/', '"', "'", '\\', '\n', ' ']
 
 # bounds per tier: N = max input length in chars, U = loop unwinding
 BOUNDS = {
@@ -114,6 +125,7 @@ def lift_slash_arm():
     if re.search(r'\b(ctx|file_id|file_data)\b', body):
         raise S.SliceError("lexer '/' arm mentions ctx/file_id: lifting would change its meaning")
     text = ("\n// ---- real arm `'/' => {..}` of tokenize_file (lexer.rs), lifted verbatim ----\n"
+            "#[cfg(any(feature = \"h_line_comment_skip\", feature = \"h_block_comment_skip\"))]\n"
             "fn arm_slash(lexer: &mut Lexer) {%s}\n" % body)
     return text, S.sha(body)
 
@@ -198,8 +210,8 @@ def run_batch(crate_dir, harnesses, feature=None, timeout=600, jobs=6, playback=
     # (`--jobs` requires the terse format: failed checks are listed, covers only counted)
     cmd = ["cargo", "kani"] + KANI_FLAGS + ["--exact", "--output-format", "terse", "--output-into-files",
                                             "--harness-timeout", "%ds" % timeout, "-j", str(max(1, min(jobs, len(harnesses))))]
-    if feature:
-        cmd += ["--features", feature]
+    feats = ([feature] if feature else []) + ["h_" + h for h in harnesses]
+    cmd += ["--features", ",".join(feats)]
     if playback:
         cmd += ["-Z", "concrete-playback", "--concrete-playback=print"]
     for h in harnesses:
@@ -216,8 +228,20 @@ def run_batch(crate_dir, harnesses, feature=None, timeout=600, jobs=6, playback=
                        cwd=crate_dir, env=env)
     wall = time.time() - t0
     log = p.stdout + "\n" + p.stderr
-    if re.search(r'^error(\[E\d+\])?:', log, re.M) and "Checking harness" not in log and not os.path.isdir(outdir):
-        raise E.Undecided("u11: scratch crate does not compile (lexer.rs drifted away from the stubs/harness?)\n" + log[-3000:])
+    if re.search(r'^error(\[E\d+\])?:', log, re.M) and "Checking harness" not in log:
+        # The crate does not compile with this feature set (lexer.rs drifted away from a harness
+        # or a stub).  Degrade: each harness is cfg-gated by its own cargo feature, so retry them
+        # one by one -- only the harnesses that really do not compile become UNDECIDED.
+        errs = re.findall(r'^error(?:\[E\d+\])?:[^\n]*(?:\n[^\n]*){0,6}', log, re.M)
+        cerr = "scratch crate does not compile with features %s:\n%s" % (",".join(feats), "\n".join(errs)[:2500])
+        res = {}
+        if len(harnesses) == 1:
+            res[harnesses[0]] = dict(status=E.UNDECIDED, failed=[], cover=[], time_s=0.0, raw=cerr, playback=None, compile_error=True)
+            return res, " ".join(cmd), wall
+        for h in harnesses:
+            r1, _, _ = run_batch(crate_dir, [h], feature, timeout, 1, playback)
+            res.update(r1)
+        return res, " ".join(cmd) + "  [compile error -> retried per harness]", time.time() - t0
     res = {}
     for h in harnesses:
         fp = os.path.join(outdir, MOD + h)
@@ -279,7 +303,8 @@ def split_result(r):
     everything else that can fail is Kani's own panic/overflow/bounds/unwrap checks inside the
     function under test (= C04 totality).  Tool-limit failures make both UNDECIDED."""
     if r['status'] == E.UNDECIDED:
-        return E.UNDECIDED, [], E.UNDECIDED, []
+        why = [r['raw'][:1500]] if r.get('compile_error') else []
+        return E.UNDECIDED, why, E.UNDECIDED, why
     lim = [f for f in r['failed'] if TOOL_LIMIT.search(f)]
     spec = [f for f in r['failed'] if SPEC_PREFIX.match(f) and f not in lim]
     tot = [f for f in r['failed'] if f not in spec and f not in lim]
@@ -304,7 +329,7 @@ def table(b):
              total="C04.lex.delim_scan.total",
              bound="lexer text of <= %d chars over %s, any cursor, any start <= %d, delimiter \" or ', stop_at_newline=false; unwind %d" % (b['N_SCAN'], alpha(T_ALL), b['N_SCAN'] + 1, b['U_SCAN']),
              text="ensures result == the first position p >= start with chars[index+p] == delim and an even number of consecutive backslashes in [start, p) right before p; None if there is none (spec_scan, from C30)"),
-        dict(h="handle_num_post", id="C30.lex.handle_num.post", props=["C30"], fn="Lexer::handle_num", feature=None,
+        dict(h="handle_num_post", id="C30.lex.handle_num.post", props=["C30", "C33"], fn="Lexer::handle_num", feature=None,
              total="C04.lex.handle_num.total",
              bound="lexer text of <= %d chars over %s, cursor on any digit; unwind %d" % (b['N_NUM'], alpha(T_NUM), b['U_NUM']),
              text="requires current_char().is_ascii_digit() (the only call site); ensures exactly one token; literal = maximal [0-9_]+ ('.' [0-9_]*)?; token text = its digits in order with `_` removed and the `.` kept; IntLit iff no `.`; span as long as the literal; cursor just after it. (str::parse::<i64/f64> on that text: trusted std, parse.rs)"),
@@ -328,10 +353,14 @@ def table(b):
              total="C04.lex.emit.total",
              bound="source of <= %d chars over %s, cursor on any `*`, newline or digit; unwind %d" % (b['N_SPAN'], alpha(T_SPAN), b['U_SPAN']),
              text="requires lexer.chars == source.chars() and index == k (k chars consumed); ensures the pushed token's span == [byte offset of char k, byte offset of the char after the token) in the UTF-8 source, within the source (consumers: Location::range -> codespan labels, FileData::line_number_for_index, both byte-indexed)"),
+        dict(h="span_ascii", id="C33.lex.span.ascii", props=["C33"], fn="Lexer::emit / Lexer::emit_with_skipped / Lexer::handle_num", feature=None,
+             total=None,
+             bound="ASCII source of <= %d chars over %s, cursor on any `*`, newline or digit; unwind %d" % (b['N_SPAN'], alpha(T_ASCII), b['U_SPAN']),
+             text="requires an ASCII-only source (char index == byte offset, so the clause is independent of the char-vs-byte finding); ensures the pushed token's span == [k, k2) where k2 is the end of the token's source text (`*` / `*=` / newline / the maximal literal [0-9_]+('.'[0-9_]*)? with its `_` separators) and the cursor == k2"),
         dict(h="keyword_table", id="C04.lex.keyword_table", props=["C04", "C33"], fn="TokenKind::keyword_from_str / TokenKind::nchars", feature=None,
              total=None, bound=None,
              text="ensures for every keyword spelling w: keyword_from_str(w) == Some(k) with k.is_keyword() and k.nchars() == w.len() (real strum-derived FromStr / IntoStaticStr)"),
-        dict(h="tokenize_total", id="C04.lex.tokenize.total", props=["C04"], fn="tokenize_file", feature=None, tiers=("opt-in",),
+        dict(h="tokenize_total", id="C04.lex.tokenize.kani", props=["C04"], fn="tokenize_file", feature=None, tiers=("opt-in",),
              total=None,
              bound="source of <= %d chars over %s; unwind %d; callees handle_num, scan_for_unescaped_delim, process_escapes_into, handle_multiline_string, keyword_from_str, is_poly_ident replaced by their contracts" % (b['N_TOK'], alpha(T_ALL), b['U_TOK']),
              text="ensures returns (no panic); tokens.len() in 1..=len+1; last token is Eof and no other is; every span has lo <= hi; spans non-decreasing and non-overlapping"),
@@ -342,7 +371,14 @@ def run(tier="quick"):
     tier = "thorough" if tier == "thorough" else "quick"
     sc = E.Scratch("u11")
     try:
-        meta = build(sc.path, tier)
+        build_err = None
+        try:
+            meta = build(sc.path, tier)
+        except (S.SliceError, E.Undecided) as ex:
+            # the Kani crate cannot even be assembled: its obligations are UNDECIDED one by one,
+            # the native exhaustive run (which only needs tokenize_file) still reports
+            build_err = "Kani scratch crate cannot be assembled: %s" % str(ex)[:2000]
+            meta = dict(bounds=BOUNDS[tier], real_sha="", arm_sha="", r7_count=0, unsafe_count=0, crate_uses=[], pei_sha="")
         b = meta['bounds']
         rows = [r for r in table(b) if tier in r.get('tiers', ("quick", "thorough"))
                 or ("opt-in" in r.get('tiers', ()) and os.environ.get("U11_TRY_TOKENIZE"))]
@@ -350,11 +386,19 @@ def run(tier="quick"):
         import concurrent.futures as cf
         plain = [r['h'] for r in rows if not r['feature']]
         r7 = [r['h'] for r in rows if r['feature'] == "r7"]
-        with cf.ThreadPoolExecutor(max_workers=2) as ex:
-            f1 = ex.submit(run_batch, sc.path, plain, None, tmo, 6)
-            f2 = ex.submit(run_batch, sc.path, r7, "r7", tmo, 2)
-            res1, cmd1, wall1 = f1.result()
-            res2, cmd2, wall2 = f2.result()
+        def dead(hs):
+            return ({h: dict(status=E.UNDECIDED, failed=[], cover=[], time_s=0.0, raw=build_err, playback=None, compile_error=True)
+                     for h in hs}, "(not run)", 0.0)
+        with cf.ThreadPoolExecutor(max_workers=3) as ex:
+            f3 = ex.submit(native_obligations, tier)
+            if build_err:
+                (res1, cmd1, wall1), (res2, cmd2, wall2) = dead(plain), dead(r7)
+            else:
+                f1 = ex.submit(run_batch, sc.path, plain, None, tmo, 6)
+                f2 = ex.submit(run_batch, sc.path, r7, "r7", tmo, 2)
+                res1, cmd1, wall1 = f1.result()
+                res2, cmd2, wall2 = f2.result()
+            nat_obs, nat_cmd, nat_notes = f3.result()
         res = dict(res1)
         res.update(res2)
         obs = []
@@ -385,8 +429,10 @@ def run(tier="quick"):
             obs.append(E.Obligation(oid, ["C04"], UNIT, a['fn'], "kani/cbmc", st, "\n".join(a['f'][:6]), 0.0, LEX, meta['real_sha'],
                                     a['bound'][0],
                                     "harness(es) %s: no panic, no arithmetic overflow, no out-of-bounds index, no failed unwrap inside the function for any input within the bound (Kani's checks on the real text; same CBMC runs as the .post obligations, time counted there)" % ", ".join(a['h'])))
+        obs += nat_obs
         info = dict(
             assumptions=[
+                "exhaustive native execution (C04.lex.tokenize.total, C30.lex.multiline.total): bounded enumeration of source texts, NOT a proof; it stands in for the whole-function Kani harness that CBMC cannot finish; same verbatim lexer.rs and R6 stubs, rustc release build with overflow-checks and debug-assertions on",
                 "R6 stub: crate::ast::FileId = u32; crate::statics::{Error{UnrecognizedToken(FileId,usize),UnrecognizedEscapeSequence(FileId,Span)}, StaticsContext{file_db: FileDatabase{files: Vec<FileData{source:String}>, get()}, errors: Vec<Error>}} (units/u11_lexer/stubs_*.rs); everything else of StaticsContext dropped",
                 "R7 rewrite (escapes obligations only, %d application): `%s` -> `%s`; assumes format!(\"{d2}{d3}\") yields d2 followed by d3 (std::fmt is out of CBMC's reach: indirect calls through fmt::Argument)" % (meta['r7_count'], R7_OLD, R7_NEW),
                 "std stub: String::push -> stub_string_push (in-place UTF-8 append, no amortised growth, one buffer of SCAP=%d bytes; overflow => UNDECIDED)" % b['SCAP'],
@@ -400,12 +446,12 @@ def run(tier="quick"):
             ],
             trusted_base=["kani 0.68.0 / CBMC 6.11.0", "tools/slicer.py (item, match_arm)", "strum 0.27.2 derive output (compiled, not stubbed)",
                           "rustc nightly-2026-08-21 std (String/Vec/char/str::parse)", "units/u11_lexer/harness.rs spec functions (spec_scan, spec_unescape, byte_off)"],
-            checker_cmds=[cmd1.replace(sc.path, "$SCRATCH"), cmd2.replace(sc.path, "$SCRATCH")],
+            checker_cmds=[cmd1.replace(sc.path, "$SCRATCH"), cmd2.replace(sc.path, "$SCRATCH"), nat_cmd],
             notes=dict(bounds=b, lexer_sha256=meta['real_sha'], slash_arm_sha=meta['arm_sha'], r7_applications=meta['r7_count'],
                        crate_imports=meta['crate_uses'], wall_plain_s=round(wall1, 1), wall_r7_s=round(wall2, 1),
-                       covers={h: k['cover'] for h, k in res.items()},
+                       covers={h: k['cover'] for h, k in res.items()}, native_exhaustive=nat_notes,
                        undecided_by_design=[
-                           "C04.lex.tokenize.total (whole tokenize_file): CBMC does not finish within 600 s at 2 symbolic chars, neither on the plain function nor with all seven callees (Lexer::new, handle_num, scan_for_unescaped_delim, process_escapes_into, handle_multiline_string, keyword_from_str, is_poly_ident) replaced by their contracts; the harness stays in harness.rs and runs only with U11_TRY_TOKENIZE=1. The main loop and its dispatch are therefore NOT covered; the `'/'` arm is covered as a lifted slice",
+                           "whole tokenize_file under Kani (C04.lex.tokenize.kani): CBMC does not finish within 600 s at 2 symbolic chars, neither on the plain function nor with all seven callees (Lexer::new, handle_num, scan_for_unescaped_delim, process_escapes_into, handle_multiline_string, keyword_from_str, is_poly_ident) replaced by their contracts; the harness stays in harness.rs and runs only with U11_TRY_TOKENIZE=1. The main loop and its dispatch are therefore covered only by bounded exhaustive native execution (C04.lex.tokenize.total); the `'/'` arm is also covered as a lifted slice under Kani",
                            "C30.lex.multiline.indent / handle_multiline_string: needs String -> Vec<char> (`string_val.chars().collect()`), which alone exceeds 400 s at 4 chars in CBMC; also the book documents no indentation rule (only e2e tests do). Not covered",
                            "Lexer::new (String -> Vec<char>): same limit; the C33 obligation assumes its meaning"]),
         )
@@ -493,7 +539,81 @@ def _line_col(text, k):
     return line, col
 
 
+NUM_RX = re.compile(r'[0-9][0-9_]*(?:\.[0-9_]*)?')
+
+
+def _max_literal(cs, k):
+    m = NUM_RX.match(cs, k)
+    return m.group(0) if m else None
+
+
+def _replay_literal(lit):
+    """A numeric literal's span on the real CLI: `let limit: string = <lit>` makes the type
+    checker underline the literal (label "`int` literal" / "`float` literal"); the underlined
+    range must be exactly the literal's extent."""
+    prefix = "let limit: string = "
+    prog = prefix + lit + "\n"
+    out, err, rc = abra_cli.run_program(prog, args=["--check"])
+    text = ANSI.sub('', out + err)
+    lines = text.split('\n')
+    info = dict(program=prog, literal=lit, expected_underline=dict(column=len(prefix) + 1, length=len(lit)),
+                real_output=text[:900], rc=rc)
+    for i, l in enumerate(lines):
+        m = re.match(r'^(\s*\d+ │ )(.*)$', l)
+        if not m or not m.group(2).startswith(prefix):
+            continue
+        w = len(m.group(1))
+        for l2 in lines[i + 1:i + 4]:
+            lm = re.search(r'([-^]+) `(?:int|float)` literal', l2)
+            if lm:
+                got = dict(column=lm.start(1) - w + 1, length=len(lm.group(1)))
+                info['reported_underline'] = got
+                return (got != info['expected_underline']), info
+    info['note'] = "no literal label found in the CLI output"
+    return None, info
+
+
 def replay(ob):
+    if ob.id in (TOK_ID, ML_ID):
+        return replay_native(ob)
+    if ob.id == SPAN_NAT_ID:
+        cex = getattr(ob, 'cex', None)
+        if not cex:
+            obs, _, _ = native_obligations("thorough" if os.environ.get("VERIF_TIER") == "thorough" else "quick")
+            me = [o for o in obs if o.id == ob.id]
+            cex = me[0].cex if me else None
+            ob.cex = cex
+        if not cex:
+            return None, dict(note="exhaustive run reports no failing text")
+        cls = cex.get('all_classes', [cex])
+        for c in sorted(cls, key=lambda c: 0 if 'lit' in c['what'].lower() else 1):
+            m = NUM_RX.search(c['text'])
+            if m:
+                conf, info = _replay_literal(m.group(0))
+                info.update(failing_text=c['text'], what=c['what'])
+                return conf, info
+        return None, dict(note="failing text has no numeric literal; no CLI probe for this token kind", classes=cex.get('all_classes'))
+    if ob.id in ("C30.lex.handle_num.post", "C33.lex.span.ascii"):
+        tier = "thorough" if os.environ.get("VERIF_TIER") == "thorough" else "quick"
+        b = BOUNDS[tier]
+        num = ob.id.startswith("C30")
+        h, tab, N = ("handle_num_post", T_NUM, b['N_NUM']) if num else ("span_ascii", T_ASCII, b['N_SPAN'])
+        r, pb = _playback(h, None, tier)
+        info = dict(harness=MOD + h, status=r['status'], failed=r['failed'][:4])
+        if r['status'] != E.FAILED or not pb or len(pb) < 2 + N:
+            return None, info
+        v = _u8s(pb)
+        cs = "".join(tab[i] for i in v[1:1 + N])[:v[0]]
+        k = v[1 + N]
+        lit = _max_literal(cs, k)
+        info['counterexample'] = dict(text=cs, cursor_char=k, literal=lit)
+        ob.cex = info['counterexample']
+        if not lit:
+            info['note'] = "counterexample token is not a numeric literal; no CLI probe for it"
+            return None, info
+        conf, inf2 = _replay_literal(lit)
+        info.update(inf2)
+        return conf, info
     tier = os.environ.get("VERIF_TIER", "quick")
     tier = "thorough" if tier == "thorough" else "quick"
     b = BOUNDS[tier]
@@ -588,3 +708,186 @@ def replay(ob):
             return (not diag), info
         return (diag or o[0] != want), info
     return None, dict(note="no replay for %s" % ob.id)
+
+
+# ------------------------------------------------------------------ exhaustive native execution
+
+NATIVE_CARGO = """[package]
+name = "u11native"
+version = "0.1.0"
+edition = "2024"
+[dependencies]
+strum = { version = "0.27.2", features = ["derive"] }
+strum_macros = "0.27.2"
+[profile.release]
+opt-level = 2
+overflow-checks = true
+debug-assertions = true
+panic = "unwind"
+[lints.rust]
+unexpected_cfgs = { level = "allow" }
+[workspace]
+"""
+
+NATIVE_MAIN = """#![allow(dead_code, unused_imports, unused_variables, unused_mut, unused_assignments, clippy::all)]
+mod ast;
+mod statics;
+mod parse;
+fn main() {
+    parse::lexer::native::main()
+}
+"""
+
+NATIVE_WRAP = """include!("lexer_real.rs");
+pub(crate) mod native {
+    use super::*;
+    include!("u11_native.rs");
+}
+"""
+
+NATIVE_N = {"quick": 5, "thorough": 7}
+TOK_ID = "C04.lex.tokenize.total"
+ML_ID = "C30.lex.multiline.total"
+SPAN_NAT_ID = "C33.lex.span.ascii_exhaustive"
+
+
+def build_native(dirpath):
+    """Scratch binary crate: lexer.rs byte-for-byte + the R6 stubs + native.rs (driver)."""
+    with open(os.path.join(S.REPO, LEX), 'rb') as f:
+        raw = f.read()
+    os.makedirs(os.path.join(dirpath, "src", "parse"), exist_ok=True)
+    with open(os.path.join(dirpath, "src", "parse", "lexer_real.rs"), "wb") as f:
+        f.write(raw)
+    w = lambda rel, s: open(os.path.join(dirpath, rel), "w", encoding="utf-8").write(s)
+    w("Cargo.toml", NATIVE_CARGO)
+    lock = os.path.join(S.REPO, "Cargo.lock")
+    if os.path.exists(lock):
+        shutil.copy(lock, os.path.join(dirpath, "Cargo.lock"))
+    w("src/main.rs", NATIVE_MAIN)
+    w("src/parse.rs", PARSE)
+    w("src/parse/lexer.rs", NATIVE_WRAP)
+    shutil.copy(os.path.join(HERE, "native.rs"), os.path.join(dirpath, "src", "parse", "u11_native.rs"))
+    shutil.copy(os.path.join(HERE, "stubs_ast.rs"), os.path.join(dirpath, "src", "ast.rs"))
+    shutil.copy(os.path.join(HERE, "stubs_statics.rs"), os.path.join(dirpath, "src", "statics.rs"))
+    return hashlib.sha256(raw).hexdigest()[:16]
+
+
+def run_native(tier, n=None, jobs=6):
+    """Build + run the exhaustive driver.  Returns (result dict | None, sha, cmd, detail, secs)."""
+    import json
+    n = n or NATIVE_N[tier]
+    sc = E.Scratch("u11n")
+    try:
+        sha = build_native(sc.path)
+        env = E.kani_env()
+        # (U11_TARGET_CACHE, if set, also keeps the third-party build of this crate between runs)
+        tdir = (os.environ["U11_TARGET_CACHE"] + "-native") if os.environ.get("U11_TARGET_CACHE") else os.path.join(sc.path, "target")
+        env["CARGO_TARGET_DIR"] = tdir
+        env.pop("RUSTFLAGS", None)
+        t0 = time.time()
+        p = subprocess.run(["timeout", "900", "cargo", "build", "--release", "--offline", "--quiet"], cwd=sc.path,
+                           capture_output=True, text=True, env=env)
+        tb = time.time() - t0
+        cmd = "cargo build --release --offline (overflow-checks, debug-assertions on) && target/release/u11native %d %d" % (n, jobs)
+        if p.returncode != 0:
+            return None, sha, cmd, "native crate does not build:\n" + p.stderr[-2500:], tb
+        t0 = time.time()
+        q = subprocess.run(["timeout", "3000", os.path.join(tdir, "release", "u11native"), str(n), str(jobs)],
+                           capture_output=True, text=True)
+        tr = time.time() - t0
+        if q.returncode != 0:
+            return None, sha, cmd, "driver exited with %d\n%s" % (q.returncode, (q.stderr or q.stdout)[-2000:]), tb + tr
+        try:
+            res = json.loads(q.stdout)
+        except Exception:
+            return None, sha, cmd, "driver output is not JSON: " + q.stdout[-500:], tb + tr
+        res['build_s'], res['run_s'] = round(tb, 1), round(tr, 1)
+        return res, sha, cmd, "", tb + tr
+    finally:
+        sc.cleanup()
+
+
+def native_obligations(tier):
+    res, sha, cmd, err, secs = run_native(tier)
+    n = NATIVE_N[tier]
+    if res is None:
+        obs = [E.Obligation(TOK_ID, ["C04", "C30", "C29"], UNIT, "tokenize_file", "rustc/native exhaustive", E.UNDECIDED, err, secs, LEX, sha,
+                            "every text of <= %d atoms" % n, ""),
+               E.Obligation(ML_ID, ["C30", "C04"], UNIT, "handle_multiline_string (via tokenize_file)", "rustc/native exhaustive", E.UNDECIDED, err, 0.0, LEX, sha,
+                            "every text of <= %d atoms starting with \"\"\"" % n, ""),
+               E.Obligation(SPAN_NAT_ID, ["C33"], UNIT, "tokenize_file (token spans)", "rustc/native exhaustive", E.UNDECIDED, err, 0.0, LEX, sha,
+                            "every ASCII text of <= %d atoms" % n, "")]
+        return obs, cmd, dict(error=err[:500])
+    atoms = " ".join(repr(a)[1:-1] if a != "'" else "'" for a in res['atoms'])
+    bound = ("EXHAUSTIVE NATIVE EXECUTION, not a proof: every source text of <= %d atoms over the %d-atom alphabet {%s} "
+             "(%d texts executed this run)" % (res['n'], len(res['atoms']), atoms, res['texts']))
+    text = ("native driver units/u11_lexer/native.rs on the verbatim lexer.rs (overflow checks + debug assertions on, catch_unwind): for every text, "
+            "tokenize_file returns without panicking; the last token is Eof and no earlier one is; every span has lo <= hi; spans never decrease or overlap; "
+            "ctx.errors holds lexer diagnostics only (UnrecognizedToken / UnrecognizedEscapeSequence; exhaustive match, and the R6 stub has no other variant). "
+            "This run: %d texts, %d panics, %d clause violations, %d tokens and %d diagnostics produced" % (
+                res['texts'], res['panics'], res['violations'], res['tokens'], res['diagnostics']))
+    all_classes = sorted(res['classes'], key=lambda c: (c['natoms'], c['text']))
+    span_classes = [c for c in all_classes if c['what'].startswith("span")]
+    classes = [c for c in all_classes if not c['what'].startswith("span")]
+
+    def mk(oid, props, fn, cls, ntexts, npan, nviol, bnd, txt):
+        if cls:
+            st = E.FAILED
+            detail = "\n".join("%s | shortest failing text (%d atoms): %r | %d texts" % (c['what'], c['natoms'], c['text'], c['count']) for c in cls[:12])
+            cex = dict(text=cls[0]['text'], what=cls[0]['what'], natoms=cls[0]['natoms'],
+                       all_classes=[dict(what=c['what'], text=c['text'], count=c['count']) for c in cls[:12]])
+        else:
+            st, detail, cex = E.DISCHARGED, "", None
+        if ntexts == 0:
+            st, detail = E.UNDECIDED, "vacuity guard: no text executed"
+        return E.Obligation(oid, props, UNIT, fn, "rustc/native exhaustive", st, detail, secs if oid == TOK_ID else 0.0, LEX, sha, bnd, txt, cex=cex)
+
+    obs = [mk(TOK_ID, ["C04", "C30", "C29"], "tokenize_file", classes, res['texts'], res['panics'], res['violations'], bound, text)]
+    mlc = [dict(c, count=c['ml_count']) for c in classes if c['ml_count'] > 0]
+    # the shortest text of a class may not start with `"""`; the multiline obligation reports the class, its own text comes from the class when it does
+    obs.append(mk(ML_ID, ["C30", "C04"], "handle_multiline_string (via tokenize_file)", mlc, res['ml_texts'], res['ml_panics'], res['ml_violations'],
+                  bound.replace("every source text of", "every source text starting with the atom \"\"\" of") .replace("(%d texts" % res['texts'], "(%d texts" % res['ml_texts']),
+                  "same run and clauses, restricted to the texts whose first atom is `\"\"\"` (the only way into handle_multiline_string at offset 0): "
+                  "%d texts, %d panics, %d clause violations" % (res['ml_texts'], res['ml_panics'], res['ml_violations'])))
+    obs.append(mk(SPAN_NAT_ID, ["C33"], "tokenize_file (token spans)", span_classes, res.get('ascii_texts', 0), 0, res.get('span_violations', 0),
+                  bound.replace("every source text of", "every ASCII-only source text of").replace("(%d texts" % res['texts'], "(%d texts" % res.get('ascii_texts', 0)),
+                  "same run, ASCII-only texts (char index == byte offset, hence independent of the char-vs-byte finding): for every token the source text under its span "
+                  "is the token's text (literal digits with `_` removed, identifier, operator/keyword spelling, a quote for strings, newline), the span lies within the source, "
+                  "and a numeric literal's span is not followed by a char that belongs to the literal (every consumed char is covered). "
+                  "%d ASCII texts, %d violations" % (res.get('ascii_texts', 0), res.get('span_violations', 0))))
+    notes = dict(ascii_texts=res.get('ascii_texts'), span_violations=res.get('span_violations'), end_of_input="texts are exact atom concatenations: no implicit trailing newline, every atom occurs as the last one (e.g. `\"a\\` = a text ending in a lone backslash inside an unterminated string is 3 atoms)", n=res['n'], atoms=res['atoms'], texts=res['texts'], panics=res['panics'], violations=res['violations'],
+                 multiline_texts=res['ml_texts'], multiline_panics=res['ml_panics'], build_s=res['build_s'], run_s=res['run_s'],
+                 failing_classes=[dict(what=c['what'], shortest_text=c['text'], texts=c['count']) for c in all_classes])
+    return obs, cmd, notes
+
+
+def replay_native(ob):
+    """Run the shortest failing text through the real CLI (`abra --check file`)."""
+    cex = getattr(ob, 'cex', None)
+    if not cex or 'text' not in cex:
+        tier = "thorough" if os.environ.get("VERIF_TIER") == "thorough" else "quick"
+        obs, _, _ = native_obligations(tier)
+        me = [o for o in obs if o.id == ob.id]
+        cex = me[0].cex if me else None
+        if not cex:
+            return None, dict(note="exhaustive run reports no failing text")
+        ob.cex = cex
+    confirmed_any, runs = False, []
+    for c in cex.get('all_classes', [dict(what=cex['what'], text=cex['text'])])[:6]:
+        if ob.id == ML_ID and not c['text'].startswith('"""'):
+            continue
+        out, err, rc = abra_cli.run_program(c['text'], args=["--check"])
+        host_panic = (rc == 101) or ("panicked at" in err) or ("panicked at" in out)
+        is_panic_class = c['what'].startswith("panic")
+        runs.append(dict(what=c['what'], text=c['text'], cmd="abra --standard-modules <repo>/modules --check main.abra", rc=rc,
+                         stderr=ANSI.sub('', err)[:700], host_panicked=host_panic,
+                         note="" if is_panic_class else "clause violation (not a panic): not observable through the CLI, not replayed"))
+        if is_panic_class and host_panic:
+            confirmed_any = True
+    info = dict(replayed=runs, expected="the checker returns diagnostics or success; it never panics (C04)")
+    panic_runs = [r for r in runs if r['what'].startswith("panic")]
+    if not panic_runs:
+        return None, info
+    if confirmed_any:
+        return True, info
+    return False, info
